@@ -129,6 +129,10 @@ def ev(e, env, subst=None):
         if isinstance(e.op, (ast.FloorDiv, ast.Div)):
             return l.div(r)
         raise NotPoly(f"operator {type(e.op).__name__}")
+    if isinstance(e, ast.Call) and isinstance(e.func, ast.Name) and e.func.id in ("max", "min") and e.args \
+            and not e.keywords:
+        args = sorted(repr(ev(a, env)) for a in e.args)
+        return Poly.sym(f"{e.func.id}({', '.join(args)})")
     raise NotPoly(f"expression `{txt[:60]}`")
 
 
@@ -180,6 +184,7 @@ class Interp:
         self.tuples = dict(tuples or {})   # text of an expression -> tuple of names/Polys it unpacks to
         self.effects = []
         self.watch = set()                 # local names whose augmented assignments are recorded as effects
+        self.track_attrs = False           # also keep `obj.attr` stores/updates in the environment (straight-line state)
         self.tests = {}                    # text of a test -> its AST
 
     # -- values
@@ -255,8 +260,13 @@ class Interp:
                     sets.pop(t.id, None)
             return
         # attribute / subscript store
-        self.effects.append(Effect("store", _txt(target), None, self.val(value_expr, env, sets), value_expr,
-                                   conds, loops, st))
+        v_ = self.val(value_expr, env, sets)
+        self.effects.append(Effect("store", _txt(target), None, v_, value_expr, conds, loops, st))
+        if self.track_attrs and isinstance(target, ast.Attribute):
+            if isinstance(v_, Poly):
+                env[_txt(target)] = v_
+            else:
+                env.pop(_txt(target), None)
 
     def _stmt(self, st, env, sets, conds, loops):
         if isinstance(st, ast.Assign):
@@ -275,8 +285,15 @@ class Interp:
                 except (KeyError, NotPoly):
                     env.pop(st.target.id, None)
             else:
-                self.effects.append(Effect("aug", _txt(st.target), type(st.op).__name__,
-                                           self.val(st.value, env, sets), st.value, conds, loops, st))
+                v_ = self.val(st.value, env, sets)
+                self.effects.append(Effect("aug", _txt(st.target), type(st.op).__name__, v_, st.value, conds, loops, st))
+                if self.track_attrs and isinstance(st.target, ast.Attribute):
+                    t_ = _txt(st.target)
+                    cur = env.get(t_)
+                    if isinstance(v_, Poly) and isinstance(cur, Poly) and type(st.op) in (ast.Add, ast.Sub, ast.Mult):
+                        env[t_] = cur + v_ if isinstance(st.op, ast.Add) else cur - v_ if isinstance(st.op, ast.Sub) else cur * v_
+                    else:
+                        env.pop(t_, None)
         elif isinstance(st, ast.Expr) and isinstance(st.value, ast.Call) and isinstance(st.value.func, ast.Attribute):
             c = st.value
             recv = c.func.value
